@@ -13,3 +13,5 @@ import TvCore.Props.C12
 #print axioms TV.C12.unroutable_send_refused
 #print axioms TV.C12.connect_refused_of_dropped
 #print axioms TV.C12.connect_pending_of_pending
+#print axioms TV.C12.dropEnvs_drops
+#print axioms TV.C12.partition_refuses_inflight
